@@ -6,7 +6,7 @@ import random
 
 from .core import Plugin
 
-REPS = ["a", "1", "_", ".", "-", ":", "/", "#", " ", "\t", "\n", "[", "]", "é"]
+REPS = ["a", "1", "_", ".", "-", ":", "/", "#", " ", "\t", "\n", "[", "]", "é", "\u0663"]   # U+0663: a non-ASCII decimal digit
 SMALL = ["a", "1", ":", "/", " ", "\n", "[", "_"]
 EXOTIC = [" ", " ", "\u001c", "\u0085", "　", "​", "Z", "A", "z", "0", "9", "~", "%", "é", "𝔘", "\r", "\x0b", "\x0c"]
 
@@ -21,7 +21,7 @@ class C20(Plugin):
     prop = 20
     counts = {"quick": 20000, "thorough": 1000000}
     rule = ("every string of length <= 4 (quick) / <= 5 plus length 6 over an 8-symbol sub-alphabet (thorough) over one representative per "
-            "character class {letter, digit, '_', '.', '-', ':', '/', '#', space, tab, newline, '[', ']', non-ASCII letter}; plus random "
+            "character class {letter, digit, '_', '.', '-', ':', '/', '#', space, tab, newline, '[', ']', non-ASCII letter, non-ASCII decimal digit}; plus random "
             "strings of length 5..14 mixing the representatives with exotic whitespace (U+00A0, U+2028, U+001C, U+0085, U+3000), zero-width "
             "space, other letters and digits. Non-trivial: length >= 2 and at least one character that is not an ASCII letter. "
             "Each case carries the whitespace table (str.isspace) of its own characters.")
